@@ -786,8 +786,9 @@ func (g *GoFakeS3) copyObject(bucket, object string, meta map[string]string, w h
 	if srcObj.VersionID != "" {
 		w.Header().Set("x-amz-copy-source-version-id", string(srcObj.VersionID))
 	}
-	if srcObj.VersionID != "" {
-		w.Header().Set("x-amz-version-id", string(srcObj.VersionID))
+	// the version the copy created, not the one it was made from
+	if result.VersionID != "" {
+		w.Header().Set("x-amz-version-id", string(result.VersionID))
 	}
 
 	return g.xmlEncoder(w).Encode(result)
